@@ -12,10 +12,10 @@ CHECKS = {
     "C02": dict(engine="core(api)", technique=PBT + "generated span-tree programs; oracle: delivered (trace id, parent id) multiset per span name equals the reference model's tree, ids non-zero and distinct",
                 text="Exploration: 72k generated programs per quick run in both collector configurations (640k thorough); every delivered record is matched by unique name to a model span and its trace/parent ids are compared with the model tree.",
                 note="Parent ids are resolved through the parent's delivered record (fallback: id reported by from_span). Id collisions of probability 2^-32 are not reachable."),
-    "C03": dict(engine="core(sched+api)", technique=PBT + "generated programs + schedules in cancelable mode; oracle: one report() batch per trace containing root and must-set (spans finished before the root by baton happens-before); thorough tier adds the libFuzzer (program, schedule) campaign",
+    "C03": dict(engine="core(sched+api)", technique=PBT + "generated programs + schedules in cancelable mode; oracle: one report() batch per trace containing root and must-set (spans finished before the root by baton happens-before); plus overlapping real flush() calls with cancelable(true) (every trace whole once its root finished); thorough tier adds the libFuzzer (program, schedule) campaign",
                 text="Exploration: 45k scheduled + 27k API cases per quick run; batch structure of every trace checked against must/may sets derived from real happens-before. The known inconsistent-cut finding is recognised by an exact structural predicate and everything else is still checked.",
                 note="Same trusted base as C01. Known findings are listed in known_findings.json and matched by exact signature."),
-    "C04": dict(engine="core(sched+api)", technique=PBT + "generated cancel histories incl. ring-full fault injection; oracle: no record of a cancelled trace in any batch, other traces as C03, no-op cancels metamorphic (delivery as if absent)",
+    "C04": dict(engine="core(sched+api)", technique=PBT + "generated cancel histories incl. ring-full fault injection; oracle: no record of a cancelled trace in any batch, other traces as C03, no-op cancels metamorphic (delivery as if absent); plus constructed sub-cases with the real flush(): overlapping flush() calls with cancelable(true), and a thread with a completely full queue that cancels and calls flush() itself",
                 text="Exploration: 36k scheduled (both configs, with queue-fill episodes) + 27k API cases per quick run.",
                 note="Same trusted base as C01; ring capacity fixed at the compiled-in 10240."),
     "C05": dict(engine="core(api)", technique=PBT + "generated programs mixing sampled/unsampled roots; oracle: nothing carrying an unsampled item is delivered, mixed-parent spans/scopes delivered exactly in sampled parents' traces, extracted contexts carry the flag",
